@@ -114,6 +114,17 @@ CHECKS = {
         "files. The partition index in counter::count_chunk and thread schedules are outside.",
         "technique": TECH,
     },
+    "C16": {
+        "text": "KERNEL claim for the two minimiser subcommands only: the expressions with which bin_sequences and seq_to_min build the per-record generator "
+        "(`if wsize == 0 {..} else {..}`) are extracted from the current misc/src/minimisers.rs and executed with the real MinimiserGenerator on every record of "
+        "each length 0..=m+2 (incl. no bases, shorter than m, shorter than w): no panic/overflow/unwrap failure (Kani's default checks), the iterator ends, no "
+        "placeholder value, runs inside the record. Found a genuine defect (w = 0 with a record shorter than m panics), fixed by a fix: commit.",
+        "design_ref": "DESIGN.md section 3 / C16",
+        "note": NOTE_COMMON + "Everything else of C16 (empty input file, exit status, I/O paths of the other subcommands) is outside; their per-record kernels are "
+        "exercised on empty/short/all-ambiguous records by C04, C08, C11, C12, C14 with panic checks on. VecDeque ring model; call sites located by a regular "
+        "expression (not found -> inconclusive).",
+        "technique": TECH,
+    },
     "C18": {
         "text": "Two complementary encodings of the real KmerMinimiserGenerator. Whole-run: for each (w,m) and length the solver shows item-by-item equality with the "
         "plain MinimiserGenerator and that the concatenated k-mer lists are exactly the canonical w-mers of the valid windows in order (also against the real "
@@ -132,7 +143,6 @@ NOT_APPLICABLE = {
     "C07": "scc::HashMap atomicity, rayon workers, temp-file round trip and directory listing decide this property; none can be executed symbolically by Kani/CBMC (threads/FFI/file I/O unsupported)",
     "C10": "same structure as C07 (rayon + scc + file output + {:?} formatting); the per-record run list it prints is decided under C09",
     "C15": "clap parsing and process exit status are out of reach, and kani-compiler 0.68 crashes (ICE in intrinsics.rs) on anything reachable from kmertools::args::cli",
-    "C16": "whole-process property (panic/exit status across I/O paths); the only kernel clause (no placeholder value emitted) is decided under C09",
     "C17": "depends on O_TRUNC/set_len/File::create semantics of the OS; no repository code to execute symbolically",
 }
 
